@@ -5,7 +5,8 @@
 //!
 //! input line:  <eof|pending|err> <chunk hex>... [| <chunk hex>... ]* / <eof|pending|err> ... / ...
 //!   `|` separates EXCHANGES on one connection: one request per exchange, its chunks arrive once that request is on
-//!   the wire, the next request is made when the previous one has its result (reply, error or the 1 s timeout)
+//!   the wire, the next request is made when the previous one has its result (reply, error or the 1 s timeout);
+//!   `idle <chunks>` is an exchange without a request (the bytes arrive while the client is idle; result `Idle`)
 //! output line: the request's result per connection, joined by " / ":
 //!   Ok(<value>) | Exception(<code>) | BadFrame | BadResponse | Io | Timeout | <Debug of anything else>
 //! optional arguments: --decode min|max; --rtu = the RTU client (FrameWriter::rtu + response parser; replies are
@@ -43,9 +44,11 @@ async fn run_case(line: String, decode: DecodeLevel, rtu: bool) -> String {
             let mut it = t.splitn(2, char::is_whitespace);
             (it.next().unwrap_or("").to_string(), it.next().unwrap_or("").to_string())
         };
+        // an exchange written `idle <chunks>` has no request: its chunks arrive while the client is idle
+        let idle: Vec<bool> = rest.split('|').map(|p| p.split_whitespace().next() == Some("idle")).collect();
         let phases: Vec<Vec<Vec<u8>>> = rest
             .split('|')
-            .map(|p| p.split_whitespace().map(unhex).collect())
+            .map(|p| p.split_whitespace().filter(|t| *t != "idle").map(unhex).collect())
             .collect();
         let wire = Wire::new();
         let results: std::sync::Arc<std::sync::Mutex<Vec<String>>> = Default::default();
@@ -55,6 +58,23 @@ async fn run_case(line: String, decode: DecodeLevel, rtu: bool) -> String {
         let chan = channel.clone();
         let driver = async move {
             for (k, chunks) in phases.iter().enumerate() {
+                if idle[k] {
+                    // nothing is in flight: the bytes arrive while the client is idle
+                    res2.lock().unwrap().push("Idle".to_string());
+                    for c in chunks {
+                        w2.push(c);
+                    }
+                    if k + 1 == n_phases {
+                        match fin.as_str() {
+                            "eof" => w2.set_eof(),
+                            "err" => w2.set_read_error(std::io::ErrorKind::ConnectionReset),
+                            _ => {}
+                        }
+                    }
+                    crate::wire::settle().await;
+                    crate::wire::settle().await;
+                    continue;
+                }
                 let written = w2.0.lock().unwrap().out.len();
                 let ch = chan.clone();
                 let res3 = res2.clone();
